@@ -260,6 +260,9 @@ func init() {
 						x.Obj.Bytes = map[int]*Term{}
 						x.Obj.Name = fmt.Sprintf("%s.%d", name, k)
 						x.Obj.HavocName = sanitize(x.Obj.Name)
+						if l, ok := s.concreteMax(x.Obj.Len); ok && l > 8 {
+							x.Obj.toArray(s) // array mode from the start: whole-object copies stay recognisable
+						}
 						k++
 						return
 					}
